@@ -5,7 +5,7 @@ package keygen
 
 // ---- round state invariants (established by the start function / the previous Finalize)
 //@ pred hok(h *round.Helper) := h != nil && h.hash != nil && h.hash.h != nil && h.info.Group != nil && !held(h.mtx)
-//@ pred r1ok(r *round1) := r != nil && hok(r.Helper) && r.privateShare != nil && r.publicKey != nil && r.verificationShares != nil && r.threshold >= 0
+//@ pred r1ok(r *round1) := r != nil && hok(r.Helper) && r.privateShare != nil && r.publicKey != nil && r.verificationShares != nil && r.threshold >= 0 && r.threshold < 1000000
 //@ pred r2ok(r *round2) := r != nil && r1ok(r.round1) && r.f_i != nil && r.Phi != nil && r.ChainKeys != nil && r.ChainKeyCommitments != nil
 //@ pred r3ok(r *round3) := r != nil && r2ok(r.round2) && r.shareFrom != nil
 
